@@ -12,8 +12,13 @@ allh = run.parse_harnesses()
 h = dict(next(x for x in allh if x["name"] == name))
 h["fl"] = fl
 h["t"] = int(arg("--t", h["t"])); h["mem"] = int(arg("--mem", h["mem"]))
+extra = []
 if "--unwind" in opt:
-    h["kani"] = "--unwind," + arg("--unwind", "")
+    extra += ["--unwind", arg("--unwind", "")]
+if "--kani" in opt:
+    extra += arg("--kani", "").split(",")
+if extra:
+    h["kani"] = ",".join(([h["kani"]] if h.get("kani") else []) + extra)
 base = "/var/tmp/gv-dev-" + arg("--slot", "0")
 d, _ = run.prepare_flavour(base, fl, allh)
 os.makedirs(base + "/logs", exist_ok=True)
